@@ -113,7 +113,8 @@ def model(body):
         cond = bool(g.reach((0,), avoid={e["bb"]}) & okret)
         guard = set()
         if cond:
-            # nearest dominating switch with one side reaching e and the other reaching success without e
+            # every dominating switch with one side reaching e and another reaching success without e (an `else if`
+            # chain makes the flag depend on the earlier conditions too)
             idom = g.dominators()
             d = e["bb"]
             while d != 0:
@@ -127,8 +128,7 @@ def model(body):
                 if hits and miss and set(hits) != set(sides) | set():
                     l = op_local(t["on"])
                     if l is not None:
-                        guard, _ = _fields_behind(body, l)
-                    break
+                        guard = guard | _fields_behind(body, l)[0]
         flags.setdefault(e["flag"], []).append({
             "takes_value": takes, "value_fields": set().union(*[v["fields"] for v in vals]) if vals else set(),
             "joined_with": sorted({c[5:] for v in vals for c in v["calls"] if c.startswith("join:")}),
